@@ -60,6 +60,17 @@ LEAFTYPES = [
     S("?n zz+1"),
     # a '?' axis used after a structure-less inner PyTree within the same leaf
     ("tuple", [("pytree", S("?n")), S("?n 2")]),
+    # a STRUCTURED PyTree as a sibling inside the leaf type: the '?' axis next to it lies inside exactly one
+    # structured PyTree (usable), also when the sibling has no leaves, comes second, or holds arrays
+    ("tuple", [("spytree", ("int",), "C", 2), S("?n")]),
+    ("tuple", [("spytree", ("int",), "C", 0), S("?n m")]),
+    ("tuple", [S("?n"), ("spytree", ("int",), "C", 1)]),
+    ("tuple", [("spytree", S("m"), "C", 2), S("*?n")]),
+    ("tuple", [("spytree", ("int",), "C", 1), ("pytree", S("?n"))]),
+    # ... and a '?' axis beneath BOTH structured PyTrees is ambiguous: AnnotationError, with or without leaves in the sibling
+    ("tuple", [("spytree", ("int",), "C", 2), ("spytree", S("?n"), "W", 1)]),
+    ("tuple", [("spytree", ("int",), "C", 0), ("spytree", S("?n"), "W", 2)]),
+    ("spytree", S("?n"), "W", 2),
 ]
 
 
@@ -81,6 +92,8 @@ def required_counters(tier):
         "style.typeguard": 200,
         "style.beartype": 200,
         "style.manual": 200,
+        "sibling_structured.usable": 50,
+        "sibling_structured.ambiguous": 30,
     }
 
 
@@ -111,6 +124,8 @@ def leaf_value(rng, L, sizes):
         return rng.choice((1, 5))
     if k == "str":
         return "s"
+    if k == "spytree":
+        return tuple(leaf_value(rng, L[1], sizes) for _ in range(L[3]))
     if k == "pytree":
         n = rng.choice((1, 2, 2, 3))
         kids = [leaf_value(rng, L[1], sizes) for _ in range(n)]
@@ -257,11 +272,18 @@ def run_case(rec, rng, rngkey=None):
         rec.count("different_positions_differ_ok")
     if "pytree" in repr(case["L"]):
         rec.count("inner_pytree_ge2_leaves")
+    if "spytree" in repr(case["L"]):
+        rec.count("sibling_structured." + ("ambiguous" if "'W'" in repr(case["L"]) else "usable"))
     for style in ("typeguard", "beartype", "manual"):
         got = run_real(case, vals, struct_names, style)
         rec.case((desc["L"], desc["trees"], struct_names, case["plain"], style), nontrivial=case["npos"] >= 2 or bool(case["plain"]))
         rec.count("style." + style)
         rec.count("verdict." + (got if got in ("ok", "reject", "annot") else "other"))
+        if got != mv and mv == "annot" and got == "reject" and "'W'" in repr(case["L"]):
+            # the tree is rejected for its STRUCTURE (W or T already bound to another one) before any '?' axis is
+            # looked up: which structure W gets bound to is not modelled, and either answer refuses the call
+            rec.open_corner("ambiguous-?-vs-structure-mismatch-first")
+            continue
         if got != mv:
             mech = f"{'inner-pytree-' if 'pytree' in repr(case['L']) else ''}model-{mv}-real-{got}"
             rec.violation("verdict", dict(desc, style=style), f"{desc['L']} style={style}: model {mv}, real {got}; trees={desc['trees']} plain={case['plain']}", mechanism=mech)
